@@ -582,48 +582,100 @@ func checkShimShapes(p *Prog, r *Roles, lr *leaderRoles, res *Result) {
 					continue
 				}
 				nret++
-				al, ok := v.(*ssa.Alloc)
-				if !ok {
+				// the response is a literal of this method, or the literal returned by a local builder function that
+				// is not itself the handler of another shape; builder parameters are mapped to the call's arguments
+				type built struct {
+					al     *ssa.Alloc
+					facts  []condFact
+					mapVal func(ssa.Value) ssa.Value
+				}
+				var bs []built
+				switch x := v.(type) {
+				case *ssa.Alloc:
+					bs = append(bs, built{x, nil, func(v ssa.Value) ssa.Value { return v }})
+				case *ssa.Call:
+					sc := x.Common().StaticCallee()
+					if sc == nil || sc.Blocks == nil || sc.Pkg != f.Pkg || lr.shimImpl[sc] || sc.Signature.Recv() != nil {
+						break
+					}
+					call := x
+					okAll := true
+					var tmp []built
+					for _, rb := range sc.Blocks {
+						r2, ok := rb.Instrs[len(rb.Instrs)-1].(*ssa.Return)
+						if !ok || rb.Comment == "recover" {
+							continue
+						}
+						for _, v2 := range resolveAllCells(r2.Results[0]) {
+							al2, ok := v2.(*ssa.Alloc)
+							if !ok {
+								okAll = false
+								continue
+							}
+							tmp = append(tmp, built{al2, dominatingFacts(call.Block()), func(v ssa.Value) ssa.Value {
+								if prm, ok := resolve(v).(*ssa.Parameter); ok && prm.Parent() == sc {
+									return call.Common().Args[paramIndex(prm)]
+								}
+								return v
+							}})
+						}
+					}
+					if okAll {
+						bs = tmp
+					}
+				}
+				if len(bs) == 0 {
 					problems = append(problems, "a non-nil response is not built in this method (it is obtained from "+v.String()+"): the answer of another shape is returned")
 					continue
 				}
-				// Succeeded copied from the backend response
-				okSucc := false
-				for _, s := range p.fields().stores[succF] {
-					if s.Addr.(*ssa.FieldAddr).X == ssa.Value(al) {
-						if ld, ok := resolve(s.Val).(*ssa.UnOp); ok {
-							if fa, ok := ld.X.(*ssa.FieldAddr); ok && fieldOf(fa).Name() == "Succeeded" {
-								okSucc = true
-							}
+				isSucceededLoad := func(v ssa.Value) bool {
+					if ld, ok := resolve(v).(*ssa.UnOp); ok {
+						if fa, ok := ld.X.(*ssa.FieldAddr); ok && fieldOf(fa).Name() == "Succeeded" {
+							return true
 						}
 					}
+					return false
 				}
-				if !okSucc {
-					problems = append(problems, "Succeeded is not copied from the backend's response")
-				}
-				// Responses: slices of length 1 with the prescribed oneof type
-				nResp := 0
-				for _, s := range p.fields().stores[respF] {
-					if s.Addr.(*ssa.FieldAddr).X != ssa.Value(al) {
-						continue
+				for _, bl := range bs {
+					al := bl.al
+					// Succeeded copied from the backend response
+					okSucc := false
+					for _, s := range p.fields().stores[succF] {
+						if s.Addr.(*ssa.FieldAddr).X == ssa.Value(al) && isSucceededLoad(bl.mapVal(s.Val)) {
+							okSucc = true
+						}
 					}
-					nResp++
-					arr, why := responseOpsLiteral(s.Val, 0)
-					if arr == nil {
-						problems = append(problems, why)
-						continue
+					if !okSucc {
+						problems = append(problems, "Succeeded is not copied from the backend's response")
 					}
-					at := arr.Type().(*types.Pointer).Elem().Underlying().(*types.Array)
-					if at.Len() != 1 {
-						problems = append(problems, fmt.Sprintf("%d response ops", at.Len()))
-					}
-					kind := responseOpKind(arr)
-					// which branch?
-					onSucc := false
-					onFail := false
-					for _, cf := range dominatingFacts(s.Block()) {
-						if ld, ok := resolve(cf.Raw).(*ssa.UnOp); ok {
-							if fa, ok := ld.X.(*ssa.FieldAddr); ok && fieldOf(fa).Name() == "Succeeded" {
+					// Responses: slices of length 1 with the prescribed oneof type
+					nResp := 0
+					for _, s := range p.fields().stores[respF] {
+						if s.Addr.(*ssa.FieldAddr).X != ssa.Value(al) {
+							continue
+						}
+						nResp++
+						arr, why := responseOpsLiteral(s.Val, 0)
+						if arr == nil {
+							problems = append(problems, why)
+							continue
+						}
+						at := arr.Type().(*types.Pointer).Elem().Underlying().(*types.Array)
+						if at.Len() != 1 {
+							problems = append(problems, fmt.Sprintf("%d response ops", at.Len()))
+						}
+						kind := responseOpKind(arr)
+						// which branch?
+						onSucc := false
+						onFail := false
+						facts := bl.facts
+						if facts == nil {
+							facts = dominatingFacts(s.Block())
+						} else {
+							facts = append(append([]condFact{}, facts...), localFacts(s.Block())...)
+						}
+						for _, cf := range facts {
+							if isSucceededLoad(bl.mapVal(cf.Raw)) {
 								if cf.Want {
 									onSucc = true
 								} else {
@@ -631,20 +683,20 @@ func checkShimShapes(p *Prog, r *Roles, lr *leaderRoles, res *Result) {
 								}
 							}
 						}
+						switch {
+						case onSucc && kind != w.onSucc:
+							problems = append(problems, "success branch answers with "+kind+", expected "+w.onSucc)
+						case onFail && kind != w.onFail:
+							problems = append(problems, "failure branch answers with "+kind+", expected "+w.onFail)
+						case !onSucc && !onFail && w.onSucc != w.onFail:
+							problems = append(problems, "the response op does not depend on Succeeded")
+						case !onSucc && !onFail && kind != w.onSucc:
+							problems = append(problems, "answers with "+kind+", expected "+w.onSucc)
+						}
 					}
-					switch {
-					case onSucc && kind != w.onSucc:
-						problems = append(problems, "success branch answers with "+kind+", expected "+w.onSucc)
-					case onFail && kind != w.onFail:
-						problems = append(problems, "failure branch answers with "+kind+", expected "+w.onFail)
-					case !onSucc && !onFail && w.onSucc != w.onFail:
-						problems = append(problems, "the response op does not depend on Succeeded")
-					case !onSucc && !onFail && kind != w.onSucc:
-						problems = append(problems, "answers with "+kind+", expected "+w.onSucc)
+					if nResp == 0 {
+						problems = append(problems, "Responses never set")
 					}
-				}
-				if nResp == 0 {
-					problems = append(problems, "Responses never set")
 				}
 			}
 		}
